@@ -170,7 +170,8 @@ def to_obs_trace(tid, scn, res, root_hint=None):
             st = e["code"] if "code" in e else 1000 + e["sig"]
             evs.append({"e": "Exit", "t": tn(e["t"]), "st": st})
         elif k == "Kill":
-            evs.append({"e": "Kill", "t": tn(e["t"]) if "t" in e else 0, "sig": e["sig"], "foreign": bool(e.get("foreign"))})
+            evs.append({"e": "Kill", "t": tn(e["t"]) if "t" in e else 0, "sig": e["sig"], "foreign": bool(e.get("foreign")),
+                        "grp": bool(e.get("grp", True))})
         elif k == "Abort":
             evs.append({"e": "Abort", "live": [tn(res_task) for res_task in e.get("live_tasks", [])],
                         "file": e.get("file", ""), "line": e.get("line", 0)})
